@@ -98,3 +98,31 @@ func replaceToken(s, from, to string) string {
 		s = s[end:]
 	}
 }
+
+// symInCaller rewrites an access path of the callee h (rooted at its parameters) into the terms of a call with the
+// given arguments; ok is false when the path is not rooted at a parameter.
+func symInCaller(h *ssa.Function, args []ssa.Value, s string) (string, bool) {
+	if len(args) != len(h.Params) || !strings.Contains(s, "P:") {
+		return s, false
+	}
+	type kv struct{ from, to string }
+	var subs []kv
+	for i, p := range h.Params {
+		subs = append(subs, kv{"P:" + p.Name(), ir.Sym(args[i])})
+	}
+	for i := range subs {
+		for j := i + 1; j < len(subs); j++ {
+			if len(subs[j].from) > len(subs[i].from) {
+				subs[i], subs[j] = subs[j], subs[i]
+			}
+		}
+	}
+	// substitute through placeholders so that an argument's own path is not rewritten again
+	for i, kvp := range subs {
+		s = replaceToken(s, kvp.from, "\x00"+string(rune('A'+i))+"\x00")
+	}
+	for i, kvp := range subs {
+		s = strings.ReplaceAll(s, "\x00"+string(rune('A'+i))+"\x00", kvp.to)
+	}
+	return s, true
+}
